@@ -62,8 +62,7 @@ def clash_case(rng):
 
 class C07(Prop):
     id = 'C07'
-    theorems = ['C07.port_type_is_the_denoted_interface', 'C07.formal_type_is_the_denoted_extern',
-                'C07.unrelated_declarations_irrelevant', 'C07.lookup_errors']
+    theorems = ['C07.port_type_is_the_denoted_interface', 'C07.port_lookup_error', 'C07.formal_type_is_the_denoted_extern', 'C07.formal_lookup_error', 'C07.lambda_params_typed', 'C07.elements_denote', 'C07.lookup_errors', 'C07.unrelated_declarations_irrelevant', 'C07.second_candidate_is_an_error', 'C14.find_fqn_spec', 'C14.order']
     proof_modules = ['DznProofs.C07']
     level_rule = ('models in which interfaces, externs and enums share the simple names I/T/E/X across global, '
                   'sibling and nested namespaces A, A.B, B, A.B.A; every reference re-spelled at random as a '
